@@ -248,6 +248,11 @@ FACTORIES = [
     ('wide-page-long-list', lambda: WithSettings([[0] * 60, {'k': list('abcdefgh') * 8}], width=400, ribbon_width=400)),
     ('wide-page-narrow-ribbon', lambda: WithSettings(list(range(70)), width=1000, ribbon_width=160)),
     ('default-page-long-tuple', lambda: tuple(range(5)) * 11),
+    # values of SHORT-LIVED classes (created for the print, garbage afterwards - see EPHEMERAL): anything the library
+    # remembers about a class must not outlive it (a later class may get its address)
+    ('ephemeral-tuple-subclasses', lambda: [type('Tmp%d' % i, (tuple,), {})((i, i + 1)) for i in range(12)]),
+    ('ephemeral-namedtuples', lambda: [collections.namedtuple('Rec%d' % i, 'a b')(i, [i]) for i in range(12)]),
+    ('ephemeral-list-and-dict-subclasses', lambda: [type('L%d' % i, (list, dict)[i % 2:][:1], {})() for i in range(12)]),
     ('narrow-truncated', lambda: WithSettings({'k': list(range(8)), 'j': ('x' * 30, 'y')}, width=20, max_seq_len=3, depth=2)),
     # comment texts with whitespace-only lines (an odd and an even number of them), and comments that must be wrapped
     ('trailing-comment-blank-line', lambda: P.trailing_comment([1, 2], '\n    text\n    ')),
@@ -272,6 +277,10 @@ IDENTITY_ORDERED = {'sorted-tuple-keys-unorderable'}
 
 _ID = re.compile(r'id=\d+')
 PRISTINE_DEFERRED = dict(PP._DEFERRED_DISPATCH_BY_NAME)
+
+
+# entries whose value is built anew for every print and dropped (and collected) right after it
+EPHEMERAL = ('ephemeral-tuple-subclasses', 'ephemeral-namedtuples', 'ephemeral-list-and-dict-subclasses')
 
 
 def norm(text):
